@@ -64,6 +64,14 @@ def gen_typed_table(rng, name, n, id_start):
     return {'name': name, 'fields': fields, 'rows': rows}
 
 
+def _load_source(spec, iterators):
+    """the sources as one load((descriptor, iterators)) step: descriptor = what the plain iterables infer"""
+    from dataflows import Flow, load
+    desc = Flow(*[T.rows_of(t) for t in spec['tables']]).datastream().dp.descriptor
+    desc = json.loads(json.dumps(desc))
+    return load((desc, iterators), strip=False)
+
+
 def _history(payload, sub):
     """Runs in a sub-run child: a list of ops against one Flow object (same-object) or a single RUN (fresh)."""
     import time as _time
@@ -99,8 +107,28 @@ def _history(payload, sub):
                 yield row
         return step
 
+    class Restartable:
+        # an iterator that starts over after it ended: what load() pulls from when the same Flow object runs again
+        def __init__(self, ti, rows):
+            self.ti, self.rows, self.g = ti, rows, None
+
+        def __iter__(self):
+            return self
+
+        def __next__(self):
+            if self.g is None:
+                self.g = iter(Src(self.ti, self.rows))
+            try:
+                return next(self.g)
+            except BaseException:
+                self.g = None
+                raise
+
     def make():
-        links = [Src(ti, T.rows_of(t)) for ti, t in enumerate(spec['tables'])]
+        if spec.get('src') == 'load':
+            links = [_load_source(spec, [Restartable(ti, T.rows_of(t)) for ti, t in enumerate(spec['tables'])])]
+        else:
+            links = [Src(ti, T.rows_of(t)) for ti, t in enumerate(spec['tables'])]
         for ln in spec['links']:
             if ln.startswith('cp:'):
                 links.append(checkpoint(ln[3:]))
@@ -149,7 +177,10 @@ def _reference(payload, sub):
     from dataflows import Flow, add_field
     from ..core.ctx import jsonable
     spec = payload['spec']
-    links = [T.rows_of(t) for t in spec['tables']]
+    if spec.get('src') == 'load':
+        links = [_load_source(spec, [iter(T.rows_of(t)) for t in spec['tables']])]
+    else:
+        links = [T.rows_of(t) for t in spec['tables']]
     for ln in spec['links']:
         if ln.startswith('m'):
             links.append(add_field(ln, 'string'))
@@ -173,7 +204,7 @@ class C07(Prop):
                    'same-object configuration uses re-iterable sources and stateless steps, so only the checkpoint machinery carries state between runs']
     REAL_VS_STUB = {'real': ['dataflows Flow / checkpoint / stream / unstream / extended_json', 'the file system'], 'stub': ['process environment: TZ set per run; fork per RUN in the fresh configuration']}
     PROBES = ['negative-utc-offset', 'sub-hour-offset', 'duration-value', 'time-value', 'nested-object', 'high-precision-decimal', 'tz-changed-between-runs', 'same-object-config',
-              'fresh-config', 'delete-middle-checkpoint', 'resume-after-delete-all', 'three-checkpoints', 'empty-resource', 'mutating-step-after-checkpoint', 'year-below-1000', 'zero-column-rows']
+              'fresh-config', 'delete-middle-checkpoint', 'resume-after-delete-all', 'three-checkpoints', 'empty-resource', 'mutating-step-after-checkpoint', 'year-below-1000', 'zero-column-rows', 'sources-through-load', 'same-object-rerun-of-load']
     TIERS = {'quick': dict(runs=500, wall=100, run_wall=300),
              'thorough': dict(runs=12000, wall=1700, run_wall=600)}
     SHRINK_FROZEN = ('fields',)
@@ -213,7 +244,10 @@ class C07(Prop):
         for op in ops:
             if op['op'] == 'run' and config == 'fresh':
                 op['tz'] = rng.choice(TZS)
-        return {'spec': {'tables': tabs, 'links': links}, 'ops': ops, 'config': config}
+        spec = {'tables': tabs, 'links': links}
+        if rng.random() < 0.3:
+            spec['src'] = 'load'          # the sources arrive through one load((descriptor, iterators)) step instead of plain iterables
+        return {'spec': spec, 'ops': ops, 'config': config}
 
     def execute(self, sc, ctx):
         spec = sc['spec']
@@ -230,6 +264,10 @@ class C07(Prop):
         total = [len(t['rows']) for t in spec['tables']]
         self._probes(sc, ctx)
         ops = sc['ops']
+        if spec.get('src') == 'load':
+            ctx.probe('sources-through-load')
+            if sc.get('config') == 'same-object':
+                ctx.probe('same-object-rerun-of-load')
         if sc.get('config') == 'same-object':
             ctx.probe('same-object-config')
             r = ctx.subrun(_history, {'spec': spec, 'ops': ops})
